@@ -283,6 +283,8 @@ Definition agree_pstep (bs : list nbehav) (st : pstep) (ob : pstep_obs) : bool :
    for this request (or ret was written although no node was accepted / none was given)
    clause 9: the call returned an error although ret was written with some node's reply
    (at the return or afterwards)
+   clause 10: without QuitError the call returned an error although a node that was asked
+   produced an acceptable reply
    clause 1: a single SendProtobuf was not answered with the reply of its destination
    clause 4: no answer at all: the call did not return, panicked, or the client process died *)
 Definition check_pstep (bs : list nbehav) (st : pstep) (ob : pstep_obs) : list nat :=
@@ -295,6 +297,10 @@ Definition check_pstep (bs : list nbehav) (st : pstep) (ob : pstep_obs) : list n
       match res with
       | None => [4]
       | Some (RNode n) =>
+          (* with the order of the node list fixed, the returned node is one that was asked *)
+          (if o_noshuffle o && negb (o_nil o)
+           then clause 7 (mem_nat n (snd (getlist (List.length bs) o (seq 0 (List.length bs)))))
+           else []) ++
           let expect :=
             if want_ret then
               match node_out bs use_decoder (decode_q q) n with
@@ -311,7 +317,15 @@ Definition check_pstep (bs : list nbehav) (st : pstep) (ob : pstep_obs) : list n
           end
       | Some (RError _ _) =>
           (* an error: no reply was accepted, so ret must not have been written, nor be written later *)
-          clause 9 (omsg_eqb first None && (died || omsg_eqb final None))
+          clause 9 (omsg_eqb first None && (died || omsg_eqb final None)) ++
+          (* without QuitError an error is the answer only if every node that was asked failed *)
+          (if o_noshuffle o && negb (o_nil o) && negb (o_quit o)
+           then clause 10 (forallb (fun i => match node_out bs use_decoder (decode_q q) i with
+                                             | PErr _ _ => true
+                                             | PBadReply _ => want_ret
+                                             | POk _ => false end)
+                                   (snd (getlist (List.length bs) o (seq 0 (List.length bs)))))
+           else [])
       | Some RCrash =>
           (* the call panicked: legitimate only when there was nobody to ask *)
           clause 4 (match snd (getlist (List.length bs) o (seq 0 (List.length bs))) with [] => true | _ => false end)
